@@ -53,9 +53,16 @@ type Conn interface {
 // Server is one real cedar server endpoint: every connection runs the real
 // ServerHandshake with this configuration on Cache.
 type Server struct {
-	Addr      string
-	Keyed     bool // sessions get a key (common cipher) or not (no common cipher)
-	Authed    bool // CLAIMTOBE authentication required, or none at all
+	Addr   string
+	Keyed  bool // sessions get a key (common cipher) or not (no common cipher)
+	Authed bool // CLAIMTOBE authentication required, or none at all
+	// Placement: where established sessions live and what the server is configured
+	// with. "" / "own": the server has its own SessionCache and the harness moves
+	// each new session into it; "fallback": the server has its own (empty)
+	// SessionCache and sessions stay in the process-global cache, where storeSession
+	// files them (resumption finds them through the global fallback); "global": the
+	// server has no SessionCache of its own and uses the global cache.
+	Placement string
 	mu        sync.Mutex
 	cache     *security.SessionCache
 	breakNext bool
@@ -67,6 +74,14 @@ func NewServer(addr string) *Server {
 }
 
 func (s *Server) Cache() *security.SessionCache { s.mu.Lock(); defer s.mu.Unlock(); return s.cache }
+
+// Sessions returns the cache the established sessions live in.
+func (s *Server) Sessions() *security.SessionCache {
+	if s.Placement == "fallback" || s.Placement == "global" {
+		return security.GetSessionCache()
+	}
+	return s.Cache()
+}
 
 // Restart makes the server forget every session.
 func (s *Server) Restart() { s.mu.Lock(); s.cache = security.NewSessionCache(); s.mu.Unlock() }
@@ -97,6 +112,9 @@ func (s *Server) Config() *security.SecurityConfig {
 		PostAuthPolicy: func(authUser, peerAddr string, authenticated, encrypted bool) (string, []int) {
 			return "", []int{CmdInt["c1"], CmdInt["c2"]}
 		},
+	}
+	if s.Placement == "global" {
+		cfg.SessionCache = nil
 	}
 	if s.Authed {
 		cfg.AuthMethods = []security.AuthMethod{security.AuthClaimToBe}
@@ -143,6 +161,9 @@ func ClientConfig(cache *security.SessionCache, tag string, cmd int, authed bool
 // always files it in the process-global cache) into this server's own cache,
 // so that parallel replays are isolated and Restart forgets it.
 func (s *Server) adopt(sid string) {
+	if s.Placement == "fallback" || s.Placement == "global" {
+		return // the session stays where storeSession put it
+	}
 	g := security.GetSessionCache()
 	if e, ok := g.Lookup(sid); ok {
 		s.Cache().Store(e)
